@@ -244,6 +244,8 @@ pub struct Plan {
     pub fault: Option<(u64, u32)>,
     /// index of the operation the fault is armed for (None: the last one)
     pub fault_op: Option<usize>,
+    /// make only the k-th read/write device call of the last operation a short transfer
+    pub short_at: Option<u64>,
     /// device-call budget for the last operation
     pub budget: Option<u64>,
     pub suffix: bool,
@@ -257,7 +259,7 @@ pub struct Plan {
 
 impl Default for Plan {
     fn default() -> Self {
-        Plan { fault: None, fault_op: None, budget: Some(2_000_000), suffix: true, suffix_minimal: false, log_data: false, log_all: false, pre_decode: true }
+        Plan { fault: None, fault_op: None, short_at: None, budget: Some(2_000_000), suffix: true, suffix_minimal: false, log_data: false, log_all: false, pre_decode: true }
     }
 }
 
@@ -321,6 +323,8 @@ pub struct Exec {
     pub fired_early: Option<crate::dev::Fired>,
     pub budget_hit: bool,
     pub calls_last: u64,
+    /// read/write device calls of the last operation
+    pub rw_calls_last: u64,
     pub oob_write: bool,
     pub max_addr: u64,
     pub key: u128,
@@ -1334,6 +1338,9 @@ fn prepare_last(cx: &mut RunCtx, slots: Option<&Slots>) {
     st.log_data = cx.plan.log_data;
     let fault = if cx.plan.fault_op.is_none() { cx.plan.fault } else { None };
     st.arm(fault, cx.plan.budget);
+    if let Some(k) = cx.plan.short_at {
+        st.short = Short::At(k);
+    }
 }
 
 fn after_last_counters(cx: &mut RunCtx) {
@@ -1341,7 +1348,11 @@ fn after_last_counters(cx: &mut RunCtx) {
     cx.ex.fired = st.fired;
     cx.ex.budget_hit = st.budget_hit;
     cx.ex.calls_last = st.calls;
+    cx.ex.rw_calls_last = st.rw_calls;
     st.disarm();
+    if cx.plan.short_at.is_some() {
+        st.short = cx.cfg.short;
+    }
     cx.ex.ticks_post = cx.ctr.get();
 }
 
@@ -1467,6 +1478,7 @@ pub fn run(cfg: &Cfg, ops: &[Op], plan: &Plan) -> Exec {
         fired_early: None,
         budget_hit: false,
         calls_last: 0,
+        rw_calls_last: 0,
         oob_write: false,
         max_addr: 0,
         key: 0,
